@@ -31,13 +31,13 @@ theorem splits_one_not_mem {n : Int} {l : List Int} (s : SplitsOK n l) : (1 : In
 /-- what the reset returns: the room grid with the exit on one floor cell and the agent on another -/
 theorem rooms_reset (sh : Shape) (lh lw : Int) (ys xs : List Int) (d : DrawSt)
     (hv : 4 ≤ sh.h ∧ 3 ≤ sh.w) (hl : 1 ≤ lh ∧ 1 ≤ lw)
-    (sy : SplitsOK sh.h ys) (sx : SplitsOK sh.w xs) (dy : hasDup ys = false) (dx : hasDup xs = false) :
+    (sy : SplitsOK sh.h ys) (sx : SplitsOK sh.w xs) :
     ∃ s d' g0 ep, resetRooms sh lh lw ys xs d = .ok (s, d') ∧
       RoomsFinal sh.h.toNat sh.w.toNat ys xs g0 s.grid ep ∧
       g0.contains s.agent.pos = true ∧ g0.at s.agent.pos = .floor ∧ s.agent.pos ≠ ep ∧
       s.agent.held = .noneObj := by
   obtain ⟨hh, hw⟩ := hv
-  obtain ⟨g, d1, eg, rg⟩ := roomsGrid_spec sh lh lw ys xs d (by omega) (by omega) hl sy sx dy dx
+  obtain ⟨g, d1, eg, rg⟩ := roomsGrid_spec sh lh lw ys xs d (by omega) (by omega) hl sy sx
   have ehh : ((sh.h.toNat : Nat) : Int) = sh.h := by omega
   have eww : ((sh.w.toNat : Nat) : Int) = sh.w := by omega
   have hcont : ∀ q : Pos, 0 ≤ q.y → q.y ≤ sh.h - 1 → 0 ≤ q.x → q.x ≤ sh.w - 1 → g.contains q = true := by
@@ -101,11 +101,11 @@ the reset succeeds and the exit can be reached from the agent's cell with the sh
 `move_agent :: rest` (plain rest) under `reach_exit` termination. -/
 theorem C14_rooms (sh : Shape) (lh lw : Int) (ys xs : List Int) (d : DrawSt)
     (hv : 4 ≤ sh.h ∧ 3 ≤ sh.w) (hl : 1 ≤ lh ∧ 1 ≤ lw)
-    (sy : SplitsOK sh.h ys) (sx : SplitsOK sh.w xs) (dy : hasDup ys = false) (dx : hasDup xs = false)
+    (sy : SplitsOK sh.h ys) (sx : SplitsOK sh.w xs)
     (rest : List TransAtom) (pr : PlainRest rest) :
     ∃ s d', resetRooms sh lh lw ys xs d = .ok (s, d') ∧
       Reaches (.moveAgent :: rest) (stopOf .reachExit) goalExit s := by
-  obtain ⟨s, d', g0, ep, he, rf, ac, af, ane, _⟩ := rooms_reset sh lh lw ys xs d hv hl sy sx dy dx
+  obtain ⟨s, d', g0, ep, he, rf, ac, af, ane, _⟩ := rooms_reset sh lh lw ys xs d hv hl sy sx
   refine ⟨s, d', he, ?_⟩
   have ehh : ((sh.h.toNat : Nat) : Int) = sh.h := by omega
   have eww : ((sh.w.toNat : Nat) : Int) = sh.w := by omega
@@ -123,14 +123,14 @@ shape, a closed wall boundary, walls and floor only apart from exactly one exit,
 on a floor cell. -/
 theorem C13_rooms_wf (sh : Shape) (lh lw : Int) (ys xs : List Int) (d : DrawSt)
     (hv : 4 ≤ sh.h ∧ 3 ≤ sh.w) (hl : 1 ≤ lh ∧ 1 ≤ lw)
-    (sy : SplitsOK sh.h ys) (sx : SplitsOK sh.w xs) (dy : hasDup ys = false) (dx : hasDup xs = false) :
+    (sy : SplitsOK sh.h ys) (sx : SplitsOK sh.w xs) :
     ∃ s d' ep, resetRooms sh lh lw ys xs d = .ok (s, d') ∧
       s.grid.WF ∧ s.grid.h = sh.h.toNat ∧ s.grid.w = sh.w.toNat ∧
       (∀ q, s.grid.contains q = true → onBorder sh.h.toNat sh.w.toNat q → s.grid.at q = .wall) ∧
       (∀ q, s.grid.contains q = true → s.grid.at q = .wall ∨ s.grid.at q = .floor ∨ (q = ep ∧ s.grid.at q = .exit .none)) ∧
       s.grid.at ep = .exit .none ∧ (∀ q, s.grid.contains q = true → (s.grid.at q).isKind .exit = true → q = ep) ∧
       s.grid.contains s.agent.pos = true ∧ s.grid.at s.agent.pos = .floor ∧ s.agent.held = .noneObj := by
-  obtain ⟨s, d', g0, ep, he, rf, ac, af, ane, hheld⟩ := rooms_reset sh lh lw ys xs d hv hl sy sx dy dx
+  obtain ⟨s, d', g0, ep, he, rf, ac, af, ane, hheld⟩ := rooms_reset sh lh lw ys xs d hv hl sy sx
   obtain ⟨hh, hw⟩ := hv
   have hat : ∀ q, s.grid.at q = if q = ep then .exit .none else g0.at q := by
     intro q; rw [rf.eq, Grid.at_setP _ rf.base.wf _ _ rf.epIn]
@@ -200,9 +200,10 @@ theorem C13_rooms_wf (sh : Shape) (lh lw : Int) (ys xs : List Int) (d : DrawSt)
     · rw [if_neg hqe] at hk
       rcases rf.base.kinds q hq with h | h <;> (rw [h] at hk; simp [Obj.isKind, Obj.kind] at hk)
 
-/-- the room grid cannot be built: non-positive layouts, split vectors with a repeated entry -/
+/-- the room grid cannot be built: non-positive layouts, split vectors with two lines less than two
+apart (a repeated entry, or a "room" without interior) -/
 theorem roomsGrid_rejects (sh : Shape) (lh lw : Int) (ys xs : List Int) (d : DrawSt)
-    (hbad : lh < 1 ∨ lw < 1 ∨ hasDup ys = true ∨ hasDup xs = true) :
+    (hbad : lh < 1 ∨ lw < 1 ∨ tooClose ys = true ∨ tooClose xs = true) :
     roomsGrid sh lh lw ys xs d = .error .valueError := by
   unfold roomsGrid
   by_cases h1 : lh < 1 ∨ lw < 1
@@ -214,22 +215,46 @@ theorem roomsGrid_rejects (sh : Shape) (lh lw : Int) (ys xs : List Int) (d : Dra
     · exact absurd (Or.inl h) h1
     · exact absurd (Or.inr h) h1
     · simp [h1', h]
-    · by_cases hy : hasDup ys = true
+    · by_cases hy : tooClose ys = true
       · simp [h1', hy]
-      · have hy' : hasDup ys = false := by simpa using hy
+      · have hy' : tooClose ys = false := by simpa using hy
         simp [h1', hy', h]
 
 /-- the code's own checks reject everything else whatever the stream: non-positive layouts and split
-vectors with a repeated entry (a side too short for the layout) -/
+vectors with two lines less than two apart (a side too short for the layout) -/
 theorem C13_rooms_rejects (sh : Shape) (lh lw : Int) (ys xs : List Int) (d : DrawSt)
-    (hbad : lh < 1 ∨ lw < 1 ∨ hasDup ys = true ∨ hasDup xs = true) :
+    (hbad : lh < 1 ∨ lw < 1 ∨ tooClose ys = true ∨ tooClose xs = true) :
     resetRooms sh lh lw ys xs d = .error .valueError := by
   simp only [resetRooms, roomsGrid_rejects sh lh lw ys xs d hbad]
 
+/-- **F12 (repaired).**  Stated on the theorems' own hypothesis: a split vector that is not `Gapped`
+(two adjacent wall lines, as `np.linspace(0, 6, 5, dtype=int) = [0, 1, 3, 4, 6]` for seven rows and four
+rows of rooms) is rejected.  Before the repair the code only rejected repeated entries; `Gapped` was
+then a hypothesis the proof of `C14_rooms` forced, and the excluded vectors were accepted by the code
+and gave disconnected floors.  With numpy's end points (`0` first, `n - 1` last) acceptance is now
+exactly `SplitsOK`, the hypothesis of `C13_rooms_wf` / `C14_rooms`. -/
+theorem C13_rooms_rejects_adjacent (sh : Shape) (lh lw : Int) (ys xs : List Int) (d : DrawSt)
+    (hbad : ¬ Gapped ys ∨ ¬ Gapped xs) :
+    resetRooms sh lh lw ys xs d = .error .valueError := by
+  apply C13_rooms_rejects
+  rcases hbad with h | h
+  · right; right; left
+    cases hc : tooClose ys with
+    | true => rfl
+    | false => exact absurd ((tooClose_eq_false_iff ys).mp hc) h
+  · right; right; right
+    cases hc : tooClose xs with
+    | true => rfl
+    | false => exact absurd ((tooClose_eq_false_iff xs).mp hc) h
+
+example : ¬ Gapped [0, 1, 3, 4, 6] ∧ tooClose [0, 1, 3, 4, 6] = true := by
+  refine ⟨?_, by decide⟩
+  simp [Gapped]
+
 /-- the hypotheses are met by the shipped parameter sets (numpy's `linspace` vectors as recorded by
 the harness): 7×7 and 9×9 with layout 2×2, 10×10 and 13×13 with layout 3×3 -/
-example : SplitsOK 7 [0, 3, 6] ∧ hasDup [0, 3, 6] = false ∧ SplitsOK 9 [0, 4, 8] ∧ SplitsOK 10 [0, 3, 6, 9] ∧
-    SplitsOK 13 [0, 4, 8, 12] ∧ hasDup [0, 4, 8, 12] = false := by
+example : SplitsOK 7 [0, 3, 6] ∧ tooClose [0, 3, 6] = false ∧ SplitsOK 9 [0, 4, 8] ∧ SplitsOK 10 [0, 3, 6, 9] ∧
+    SplitsOK 13 [0, 4, 8, 12] ∧ tooClose [0, 4, 8, 12] = false := by
   refine ⟨⟨?_, rfl, rfl, by decide⟩, by decide, ⟨?_, rfl, rfl, by decide⟩, ⟨?_, rfl, rfl, by decide⟩,
     ⟨?_, rfl, rfl, by decide⟩, by decide⟩ <;> simp [Gapped]
 
